@@ -367,6 +367,10 @@ pub fn check(c: &Case) -> R {
     p.add_if(compared, "single-word vs block compared");
     p.add_if(c.script.iter().any(|o| matches!(o, LazyOp::At(_))), "script interleaves *_at with next()");
     c09::myers_classes(&c.base, &mut p);
+    p.add_if((255..=257).contains(&m), "|p| in 255..257");
+    p.add_if((511..=513).contains(&m), "|p| in 511..513");
+    p.add_if((1023..=1025).contains(&m), "|p| in 1023..1025");
+    p.add_if(m / (w as usize) >= 32, "32 or more blocks");
     Ok(p)
 }
 
@@ -415,6 +419,44 @@ pub fn strat(t: Tier) -> BoxedStrategy<Case> {
         .boxed()
 }
 
+/// large scale: patterns of 255..1025 symbols (dozens to 129 blocks), texts of up to 2500 symbols, few hits
+pub fn strat_large(_t: Tier) -> BoxedStrategy<Case> {
+    let text_max = 2500;
+    (c09::shape(), proptest::sample::select(vec![255usize, 256, 257, 300, 511, 512, 513, 1023, 1024, 1025]), c09::width())
+        .prop_flat_map(move |(mut sh, m, width)| {
+            // a one-letter alphabet makes every end position a hit (thousands of O(m^2) validations per case)
+            sh.sigma = sh.sigma.max(2);
+            let sigma = sh.sigma;
+            (
+                c09::pattern_text(sh, m, text_max),
+                prop_oneof![2 => Just(0u64), 4 => 0u64..=6, 2 => 7u64..=40],
+                Just(width),
+                proptest::collection::vec((crate::engine::gen::seq(sigma, b'a', 0..=text_max), 0u64..=20, 0u8..8, any::<u16>()), 0..=1),
+                proptest::collection::vec(prop_oneof![3 => Just(LazyOp::Next), 3 => any::<u16>().prop_map(LazyOp::At), 1 => (0u8..4).prop_map(LazyOp::Unsearched)], 0..=6),
+            )
+        })
+        .prop_map(|((p, t, ambig, wildcards), k, width, more, script)| {
+            let more = more
+                .into_iter()
+                .map(|(t, k, shape, frac)| {
+                    let t = match shape {
+                        5 | 6 => t.iter().map(|c| b'w' + (c - b'a') % 4).collect(),
+                        7 => {
+                            let j = crate::engine::gen::idx(frac, p.len() - 1);
+                            let mut v: Vec<u8> = p[j..].iter().map(|&c| if c == b'n' { b'a' } else { c }).collect();
+                            v.extend(t.iter().take(20));
+                            v
+                        }
+                        _ => t,
+                    };
+                    (B(t), k)
+                })
+                .collect();
+            Case { base: MyersCase { pattern: B(p), text: B(t), k, width, ambig, wildcards }, more, script }
+        })
+        .boxed()
+}
+
 pub fn property() -> Property {
     Property {
         id: "C10",
@@ -429,6 +471,17 @@ pub fn property() -> Property {
             strat,
             check,
             must_reach: &["hit with d>=1 and an Ins/Del in its path", "ring buffer wraps (text longer than m+k+2)", "hit starting at text position 0", "k >= |p|", "object reused for several searches", "lazy *_at at a searched end that is not a hit", "lazy query at an unsearched end", "single-word vs block compared", "multi-block pattern", "ambiguity/wildcard used"],
+            watch: true,
+        }),
+        Box::new(PropSub {
+            name: "C10/large",
+            quick: 320,
+            thorough: 16_000,
+            shards_quick: 16,
+            shards_thorough: 16,
+            strat: strat_large,
+            check,
+            must_reach: &["|p| in 255..257", "|p| in 511..513", "|p| in 1023..1025", "32 or more blocks", "hit with d>=1 and an Ins/Del in its path", "object reused for several searches"],
             watch: true,
         })],
     }
